@@ -188,6 +188,90 @@ func ruleRoundTable(c *Ctx) {
 		}
 	}
 	c.check(okArms, "round.arms", ifAdj, "adjust == 1 adds, otherwise subtracts", "round: the +1 arm must add and the other arm subtract: "+dbgArm, "C01", "C02", "C03", "C08")
+	// every path through the adjustment block applies exactly the unit step its sign calls for, never returns
+	// from inside, and moves a zero coefficient to the minimum exponent only when shifting was requested
+	{
+		bad := ""
+		nPaths := 0
+		minExp, _ := p.pkgConstInt("minBiasedExponent")
+		for _, adj := range []int64{1, -1} {
+			for _, shift := range []bool{true, false} {
+				for _, zero := range []bool{true, false} {
+					in := newInterp(p)
+					mk := func(tag string) intrinsicFn {
+						return func(in *interp, st *state, call *ast.CallExpr, recv AV, args []AV) ([]AV, bool) {
+							if len(args) == 1 {
+								if one, ok := args[0].(avInt); ok && one.v == 1 {
+									return []AV{avOpaque{tag}}, true
+								}
+							}
+							return []AV{avOpaque{"other"}}, true
+						}
+					}
+					in.intrinsics["uint128.add64"] = mk("plus-one")
+					in.intrinsics["uint128.sub64"] = mk("minus-one")
+					in.intrinsics["uint128.mul64"] = func(in *interp, st *state, call *ast.CallExpr, recv AV, args []AV) ([]AV, bool) {
+						return []AV{avOpaque{"scaled"}}, true
+					}
+					in.intrinsics["uint128.div10"] = func(in *interp, st *state, call *ast.CallExpr, recv AV, args []AV) ([]AV, bool) {
+						return []AV{&avTuple{vs: []AV{avOpaque{"tenth"}, top}}}, true
+					}
+					zeroNow := zero
+					in.evalLeaf = func(in *interp, st *state, e ast.Expr) (AV, bool) {
+						if be, ok := ast.Unparen(e).(*ast.BinaryExpr); ok {
+							if k, isZero, ok := p.wholeZeroTest(be); ok && k == p.exprKey(&ast.Ident{Name: ps[2].Name()}) || ok && strings.HasPrefix(k, ps[2].Name()+"@") {
+								// the coefficient is zero or not as the scenario says, as long as it was not rescaled
+								if o, isOp := st.vars[ps[2]].(avOpaque); isOp && o.name == "sig0" {
+									return avBool{isZero == zeroNow}, true
+								}
+								return top, true
+							}
+						}
+						return nil, false
+					}
+					st := newState()
+					st.vars[adjObj] = avInt{adj}
+					st.vars[ps[0]] = avBool{shift}
+					st.vars[ps[2]] = avOpaque{"sig0"}
+					st.vars[ps[3]] = avOpaque{"exp0"}
+					in.curFn = append(in.curFn, fd)
+					flows := in.execStmt(ifAdj, st)
+					if in.overflow || len(flows) == 0 {
+						bad = "the adjustment block could not be evaluated"
+						continue
+					}
+					for _, f := range flows {
+						nPaths++
+						if f.kind != flowNext && f.kind != flowContinue {
+							bad = fmt.Sprintf("with adjust=%+d, shift=%v, zero coefficient=%v a path leaves the function from inside the adjustment block: the unit step is skipped", adj, shift, zero)
+							continue
+						}
+						// the stepped value
+						stepped := ""
+						for _, v := range f.st.vars {
+							if o, ok := v.(avOpaque); ok && (o.name == "plus-one" || o.name == "minus-one") {
+								stepped = o.name
+							}
+						}
+						want := "plus-one"
+						if adj < 0 {
+							want = "minus-one"
+						}
+						if stepped != want {
+							bad = fmt.Sprintf("with adjust=%+d, shift=%v, zero coefficient=%v a path ends with the coefficient stepped by %q, want %s", adj, shift, zero, stepped, want)
+						}
+						if ev, ok := f.st.vars[ps[3]].(avInt); ok && ev.v == minExp && f.kind == flowNext {
+							if !(shift && zero) {
+								bad = fmt.Sprintf("with adjust=%+d, shift=%v, zero coefficient=%v the exponent is forced to the minimum: only a zero coefficient under shift may be moved there", adj, shift, zero)
+							}
+						}
+					}
+				}
+			}
+		}
+		c.check(bad == "" && nPaths >= 8, "round.paths", ifAdj, fmt.Sprintf("every path through the adjustment block applies the unit step of its sign and stays inside (%d paths over adjust × shift × zero)", nPaths),
+			"round: "+bad, "C01", "C02", "C03", "C08")
+	}
 	okRet := len(ret.Results) == 2 && p.objOf(ret.Results[0]) == ps[2] && p.objOf(ret.Results[1]) == ps[3]
 	c.check(okRet, "round.ret", ret, "returns (sig, exp)", "round must return (sig, exp)", "C01", "C02", "C03", "C08")
 }
